@@ -246,10 +246,17 @@ func (pkg *Package) loadPackageMakefile() (*MkLines, *MkLines) {
 
 	allLines.collectUsedVariables()
 
-	pkg.Pkgdir = NewPackagePathString(pkg.vars.LastValue("PKGDIR"))
-	pkg.DistinfoFile = NewPackagePathString(pkg.vars.LastValue("DISTINFO_FILE"))
-	pkg.Filesdir = NewPackagePathString(pkg.vars.LastValue("FILESDIR"))
-	pkg.Patchdir = NewPackagePathString(pkg.vars.LastValue("PATCHDIR"))
+	// An empty value (PKGDIR=) is not a usable directory; keep the default.
+	dirOr := func(varname string, def PackagePath) PackagePath {
+		if value := pkg.vars.LastValue(varname); value != "" {
+			return NewPackagePathString(value)
+		}
+		return def
+	}
+	pkg.Pkgdir = dirOr("PKGDIR", pkg.Pkgdir)
+	pkg.DistinfoFile = dirOr("DISTINFO_FILE", pkg.DistinfoFile)
+	pkg.Filesdir = dirOr("FILESDIR", pkg.Filesdir)
+	pkg.Patchdir = dirOr("PATCHDIR", pkg.Patchdir)
 
 	// See lang/php/ext.mk
 	if pkg.vars.IsDefinedSimilar("PHPEXT_MK") {
